@@ -34,7 +34,7 @@ MODS = ["Fence.tla", "FenceGen.tla", "FenceSim.tla"]
 TRANSPORTS = "hook,chan,live"
 DETECTS = ["inside", "outside", "enter", "exit", "cross"]
 VARIANTS = {"NoFallback": "NoOther", "CrossAlone": "NoOther", "FsetEnter": "NoOther", "CrossFromInside": "NoOther",
-            "NoUnionSearch": "TransportsAgree", "NewRectOnly": "TransportsAgree"}
+            "NoUnionSearch": "TransportsAgree", "NewRectOnly": "TransportsAgree", "StrOrigin": "NoOther"}
 THOROUGH_BUDGET_S = 1000
 PAR = max(4, min(common.NCPU, 12))
 
@@ -168,6 +168,7 @@ MCClasses == <<%s>>
 MCFences == <<%s>>
 MCInside == %s
 MCCross == %s
+MCCrossO == %s
 MCTouch == %s
 MCTouchU == %s
 MCFVals == %s
@@ -175,7 +176,7 @@ MCSetVals == %s
 MCExCells == %s
 ====
 """ % (name, base, ", ".join(tla_chars(i) for i in ids), ", ".join(tla_chars(p) for p in pats), ",\n  ".join(krecs), ",\n  ".join(frecs),
-       tla_mat(t["inside"]), tla_mat(t["cross"]), tla_mat(t["touch"]), tla_mat(t["touch_u"]),
+       tla_mat(t["inside"]), tla_mat(t["cross"]), tla_mat(t["cross_origin"]), tla_mat(t["touch"]), tla_mat(t["touch_u"]),
        tla_ints(fvals), tla_ints(setvals), tla_ints(excells))
 
 
@@ -183,8 +184,8 @@ def tla_ints(xs):
     return "{" + ", ".join(str(x) for x in xs) + "}"
 
 
-def consts(t, maxhist, variant="intended"):
-    return cfg_consts(NCells=len(t["cells"]), MaxHist=maxhist, Variant=variant,
+def consts(t, maxhist, variant="intended", withstr=True):
+    return cfg_consts(NCells=len(t["cells"]), MaxHist=maxhist, Variant=variant, WithStr=withstr, CrossO="<- MCCrossO",
                       IdSeq="<- MCIdSeq", PdelPats="<- MCPats", Classes="<- MCClasses", Fences="<- MCFences", Inside="<- MCInside",
                       Cross="<- MCCross", Touch="<- MCTouch", TouchU="<- MCTouchU", FVals="<- MCFVals",
                       SetVals="<- MCSetVals", ExCells="<- MCExCells")
@@ -300,7 +301,7 @@ def mutate(b, t, rng):
     ncell = len(t["cells"])
     cand = []
     for si, h in enumerate(b["h"]):
-        if h["op"] not in ("set", "fset") or (h["op"] == "set" and h["ex"]):
+        if h["op"] not in ("set", "fset") or h["ex"]:
             continue
         if si > 0 and b["h"][si - 1]["ex"]:
             continue
@@ -529,7 +530,7 @@ def run(ctx):
             any(kinds.get(k, 0) == 0 for k in need_kinds):
         raise common.Infra("replay compared nothing, or a kind of notification was never compared (vacuous): %s %s" % (total, kinds))
     ops = dicts["steps_by_op"]
-    if any(ops.get(o, 0) == 0 for o in ("set", "fset", "del", "pdel", "drop", "expire")):
+    if any(ops.get(o, 0) == 0 for o in ("set", "setstr", "fset", "del", "pdel", "drop", "expire")):
         raise common.Infra("an action of the specification was never replayed: %s" % ops)
     if set(dicts["per_transport"]) != set(TRANSPORTS.split(",")):
         raise common.Infra("a transport was never compared: %s" % dicts["per_transport"])
